@@ -573,3 +573,13 @@ func EnumName(k *ssa.Const) string {
 	}
 	return ""
 }
+
+// IsCellLoad matches a load from a local cell (an Alloc): a named result or a variable shared with a closure.
+func IsCellLoad(v ssa.Value) bool {
+	u, ok := v.(*ssa.UnOp)
+	if !ok || u.Op != token.MUL {
+		return false
+	}
+	_, isAlloc := u.X.(*ssa.Alloc)
+	return isAlloc
+}
